@@ -5,8 +5,12 @@ Cases
   trace      a generated program (main file, optionally a library under `vendor/`, optionally code
              compiled from a string without a source file) is written to a scratch directory, run until it
              raises, and the exception object - caught INSIDE the generated code, so no harness frame is
-             part of the traceback - is rendered with the real `ExceptionTrace` on a `BufferedIO`
-             (plain, or `AnsiFormatter(forced=True)`), for every verbosity, UTF-8 on/off, ignore pattern.
+             part of the traceback - is rendered with the real `ExceptionTrace` on a buffered I/O, for every
+             verbosity, UTF-8 on/off, ignore pattern and every combination of formatter and stream capability
+             (`IO_KINDS`): undecorated - PlainFormatter on a buffer, an UNFORCED AnsiFormatter on a buffer without
+             ANSI support (given to the constructor or set later with set_formatter: the path on which `Output.write`
+             strips the markup through the formatter's remove_format()), PlainFormatter on an ANSI-capable stream;
+             decorated - AnsiFormatter(forced=True) on a buffer, an unforced AnsiFormatter on an ANSI-capable stream.
   highlight  `Highlighter.split_to_lines` / `code_snippet` alone on a source text (generated, or a file
              of the repository in the thorough tier).
 
@@ -53,7 +57,8 @@ LEVEL_TEXT = ("numbers_consecutive_marked, lines_verbatim, frames_filtered, rend
               "that the model is the code is sampled by comparing highlighted lines, "
               "snippets, the filtered frame list and the complete rendered text on generated programs (files, "
               "source-less code, recursion depths 1..60, chained causes, adversarial messages) x verbosity x UTF-8 x "
-              "ignore pattern x plain/ANSI; the rendered text is additionally judged by the property statement itself.")
+              "ignore pattern x formatter/stream-capability combination (plain, unforced ANSI formatter on a stream without "
+              "ANSI support, plain on an ANSI-capable stream, forced ANSI, unforced ANSI on an ANSI-capable stream); the rendered text is additionally judged by the property statement itself.")
 LEVEL_NOTE = ("Trusted: Lean kernel + propext/Quot.sound/Classical.choice; the hand-written model (sampled, not verified "
               "against the source); CPython's tokenize, crashtest's Inspector/compact, pastel and re as external engines "
               "(their outputs are inputs of the model / applied by the harness). Not covered: solution providers, the "
@@ -72,9 +77,11 @@ RULE = ("trace cases: program = filler blocks (comments, numbers, strings, multi
         "closure | in the library | in source-less code | at the first / last line of the file (with and without final "
         "newline); main file on disk or compiled from a string; message from an adversarial set (multi-line, non-ASCII, "
         "opening/closing/mismatched tags, backslashes); chained causes 0..3; recursion depth 1..60; verbosity {0,1,2,4} x "
-        "UTF-8 x plain/ANSI x ignore pattern {none, empty, vendor dir, everything, no match} x simple mode; highlight cases: "
+        "UTF-8 x I/O kind {PlainFormatter | unforced AnsiFormatter (constructor / set_formatter) on a stream without ANSI "
+        "support | PlainFormatter on an ANSI-capable stream: undecorated, markup-like text allowed in message and source; "
+        "AnsiFormatter(forced) | unforced AnsiFormatter on an ANSI-capable stream: decorated} x ignore pattern {none, empty, vendor dir, everything, no match} x simple mode; highlight cases: "
         "generated sources (thorough: every .py file under src/) x window positions. A case is non-trivial when a trace "
-        "was rendered in full mode; distinct = distinct (program shape, message, depth, verbosity, utf8, ansi, ignore)")
+        "was rendered in full mode; distinct = distinct (program shape, message, depth, verbosity, utf8, I/O kind, ignore)")
 TRUSTED_BASE = [
     "Lean 4.33 kernel; axioms propext, Classical.choice, Quot.sound only (audited per theorem on every run)",
     "lean/Clikit/Model/Trace.lean: hand-written model of exception_trace.py; its fidelity is what the correspondence samples",
@@ -85,7 +92,7 @@ TRUSTED_BASE = [
     "line is checked by expected_contract()), crashtest 0.3.1 Inspector / FrameCollection.compact (ported for the driver; "
     "the port is proved to hand back only frames it was given and its collections are compared with the real engine's on "
     "every case that lists frames), pastel 0.2.1 (applied by the harness to the model's markup), re.match",
-    "harness/props/c20.py: program generator, traceback facts read from the traceback objects, text parser of the oracle",
+    "harness/props/c20.py: program generator, the I/O kinds (BufferedOutputStream subclass reporting ANSI support), traceback facts read from the traceback objects, text parser of the oracle",
 ]
 ASSUMPTIONS = [
     "exceptions that were raised (an exception without traceback has no frames and renders nothing in full mode; "
@@ -93,6 +100,8 @@ ASSUMPTIONS = [
     "render_fails_iff: the tokenizer delivers a stream for every frame's file and a complete stream or TokenError for every "
     "frame's line - decided by the model on every trace case (entry c20.wf, key frames_ok, expected true)",
     "no solution provider repository; Python >= 3.6 renderer; output neither quiet nor closed",
+    "the I/O's formatter interprets the markup (PlainFormatter, AnsiFormatter); an output with the NullFormatter shows the "
+    "renderer's markup as it is, tags and escapes included, and is outside 'style markup aside'",
     "messages and sources without lone surrogates, carriage returns, form feeds and ESC; str(exception) does not raise",
     "history independence of the renderer is C17's subject: the class-level caches (_FRAME_SNIPPET_CACHE, crashtest's "
     "file cache, linecache) are cleared before every case",
@@ -106,6 +115,19 @@ ANSI_RE = re.compile(r"\x1b\[[0-9;]*m")
 TAG_RE = re.compile(r"(?isx)<(([a-z][a-z0-9,_=;-]*) | /([a-z][a-z0-9,_=;-]*)?)>")   # pastel's FULL_TAG_REGEX
 VERBOSITIES = [0, 1, 2, 4]
 IGNORES = [None, "", "vendor", "all", "nomatch", "exec"]
+# formatter x stream capability; case["ansi"] says whether the output is decorated, case["io"] how it comes about
+IO_PLAIN = ["plain", "ansi-off", "ansi-off-set", "plain-capable"]
+IO_ANSI = ["forced", "capable"]
+IO_KINDS = IO_PLAIN + IO_ANSI
+
+
+def io_kind(case):
+    k = case.get("io")
+    if k is None:
+        return "forced" if case.get("ansi") else "plain"
+    if (k in IO_ANSI) != bool(case.get("ansi")):
+        raise ValueError("I/O kind %r does not go with ansi=%r" % (k, case.get("ansi")))
+    return k
 
 # ------------------------------------------------------------------ adversarial messages
 MESSAGES = [
@@ -364,6 +386,8 @@ def gen_trace_case(rng, stream="main"):
         "kind": "trace", "stream": stream, "prog": prog, "msg": msg, "exc": rng.choice(EXC_TYPES), "depth": depth,
         "verbosity": rng.choice(VERBOSITIES), "utf8": rng.random() < 0.5, "ansi": ansi,
         "simple": rng.random() < 0.08, "ignore": rng.choice(IGNORES),
+        "io": rng.choice(["forced", "forced", "capable"] if ansi else
+                         ["plain", "plain", "ansi-off", "ansi-off", "ansi-off-set", "plain-capable"]),
     }
 
 
@@ -415,9 +439,12 @@ def _fixed_prog(extra_mid=None, site="plain", route="direct", mode="file", top=N
             "bottom": ["TAIL = 1"], "lib_extra": [], "final_newline": True, "mode": mode, "exec_name": "<generated>"}
 
 
-def _fixed_case(msg="boom", ansi=False, extra_mid=None, verbosity=0, simple=False, **kw):
-    return {"kind": "trace", "stream": "fixed", "prog": _fixed_prog(extra_mid, **kw), "msg": msg, "exc": "RuntimeError",
-            "depth": 2, "verbosity": verbosity, "utf8": True, "ansi": ansi, "simple": simple, "ignore": None}
+def _fixed_case(msg="boom", ansi=False, extra_mid=None, verbosity=0, simple=False, io=None, **kw):
+    c = {"kind": "trace", "stream": "fixed", "prog": _fixed_prog(extra_mid, **kw), "msg": msg, "exc": "RuntimeError",
+         "depth": 2, "verbosity": verbosity, "utf8": True, "ansi": ansi, "simple": simple, "ignore": None}
+    if io is not None:
+        c["io"] = io
+    return c
 
 
 def regression_cases():
@@ -428,7 +455,11 @@ def regression_cases():
         _fixed_case(mode="exec", verbosity=4),                                           # D27
         _fixed_case(msg="<info>a</b>"), _fixed_case(msg="</info>", simple=True),         # D9
         _fixed_case(msg="<info>a</b>", verbosity=2, route="exec", site="exec"),
-    ]
+        # markup-like text on the undecorated I/O kinds other than the plain formatter
+    ] + [_fixed_case(msg=m, extra_mid=mid, simple=simple, io=k)
+         for k in IO_PLAIN[1:]
+         for (m, mid, simple) in (("<b>bold</b> a\\<b>c </> <fg=red>", ["A = \"<info>\" + \"</info>\"  # <b>c</b>"], False),
+                                  ("<info>a</b>", None, True))]
 
 
 def witnesses():
@@ -677,12 +708,49 @@ def _clear_caches():
     linecache.clearcache()
 
 
+_ANSI_BUFFER = None
+
+
+def _ansi_buffer():
+    global _ANSI_BUFFER
+    if _ANSI_BUFFER is None:
+        from clikit.io.output_stream import BufferedOutputStream
+
+        class AnsiCapableBuffer(BufferedOutputStream):
+            """a buffer that reports ANSI support (a terminal-like stream)"""
+
+            def supports_ansi(self):
+                return True
+        _ANSI_BUFFER = AnsiCapableBuffer
+    return _ANSI_BUFFER
+
+
 def _make_io(case):
+    from clikit.api.io import IO, Input, Output
     from clikit.io.buffered_io import BufferedIO
+    from clikit.io.input_stream import StringInputStream
     from clikit.formatter import AnsiFormatter, PlainFormatter
-    fmt = AnsiFormatter(forced=True) if case.get("ansi") else PlainFormatter()
-    io = BufferedIO(formatter=fmt, supports_utf8=bool(case.get("utf8", True)))
-    return io
+    kind = io_kind(case)
+    utf8 = bool(case.get("utf8", True))
+    if kind == "plain":
+        return BufferedIO(formatter=PlainFormatter(), supports_utf8=utf8)
+    if kind == "forced":
+        return BufferedIO(formatter=AnsiFormatter(forced=True), supports_utf8=utf8)
+    if kind == "ansi-off":          # an unforced ANSI formatter on a stream without ANSI support
+        return BufferedIO(formatter=AnsiFormatter(), supports_utf8=utf8)
+    if kind == "ansi-off-set":      # ... given to the I/O after construction
+        io = BufferedIO(supports_utf8=utf8)
+        io.set_formatter(AnsiFormatter())
+        return io
+    if kind in ("capable", "plain-capable"):
+        fmt = AnsiFormatter() if kind == "capable" else PlainFormatter()
+        buf = _ansi_buffer()
+        return IO(Input(StringInputStream("")), Output(buf(supports_utf8=utf8), fmt), Output(buf(supports_utf8=utf8), fmt))
+    raise ValueError("unknown I/O kind %r" % (kind,))
+
+
+def _fetch(io):
+    return io.output.stream.fetch() + io.error_output.stream.fetch()
 
 
 def _highlight_obs(text, utf8):
@@ -733,7 +801,7 @@ def run_impl(case):
             trace.render(io, case.get("simple", False))
         except Exception as e:  # noqa - "rendering succeeds" is the property
             raised = type(e).__name__
-        out = io.fetch_output() + io.fetch_error()
+        out = _fetch(io)
         kept = None
         if _COMPACT_LOG:
             survivors = list(_COMPACT_LOG[0])
@@ -849,7 +917,7 @@ def _apply_formatter(case, lines):
     io = _make_io(case)
     for l in lines:
         io.write_line(l)
-    return io.fetch_output()
+    return _fetch(io)
 
 
 def _split_answer(a):
@@ -1152,7 +1220,7 @@ def nontrivial_key(case, obs):
         return None
     p = case["prog"]
     return (p["site"], p["route"], p["mode"], p["chain"], len(p["top"]), len(p["mid"]), len(p["bottom"]), case["msg"],
-            case["exc"], case["depth"], case["verbosity"], case["utf8"], case["ansi"], case["ignore"])
+            case["exc"], case["depth"], case["verbosity"], case["utf8"], io_kind(case), case["ignore"])
 
 
 def bucket(case, obs):
@@ -1161,7 +1229,7 @@ def bucket(case, obs):
                                                        obs.get("contract", "?").split(":")[0])
     p = case["prog"]
     return "trace:%s:%s:v%d:%s%s" % (p["mode"], case.get("stream", "main"), case["verbosity"],
-                                     "ansi" if case["ansi"] else "plain", ":simple" if case.get("simple") else "")
+                                     io_kind(case), ":simple" if case.get("simple") else "")
 
 
 # ------------------------------------------------------------------ shrinking / neighbours
@@ -1203,6 +1271,10 @@ def shrink(case):
         c = dict(case)
         c["exc"] = "RuntimeError"
         yield c
+    if case.get("io") not in (None, "plain", "forced"):
+        c = dict(case)
+        c["io"] = "forced" if case.get("ansi") else "plain"
+        yield c
     m = case["msg"]
     if len(m) > 1:
         for cand in (m[:len(m) // 2], m[len(m) // 2:], m[1:], m[:-1]):
@@ -1242,6 +1314,11 @@ def neighbours(case):
         c = dict(case)
         c[key] = not case.get(key)
         yield c
+    for k in (IO_ANSI if case.get("ansi") else IO_PLAIN):
+        if k != io_kind(case):
+            c = dict(case)
+            c["io"] = k
+            yield c
 
 
 def extra_findings():
